@@ -26,6 +26,8 @@ import (
 //          also serves a well-behaved control peer; library as listener and as dialer
 //   wslim  websocket messages around the receive limit
 //   stall  K connections that never complete their handshake, then a good peer
+//   reject a burst of K peers whose handshake is complete and wrong (stream header, TLS, websocket
+//          subprotocol, failing Accept), then a good peer; further rounds (reject_test.go)
 //
 // A panic in a library goroutine kills the child process; the driver reports the
 // running case as crashed.  Every injection is written to stderr before it is made.
@@ -128,6 +130,36 @@ func TestC16(t *testing.T) {
 			}
 		}
 	}
+	// rejected handshakes in front of a well-behaved peer (appended last: the indices and PRNG
+	// draws of the cases above are what they were)
+	rejectKs := []int{9, 10, 12}
+	if r.Thorough() {
+		rejectKs = append(rejectKs, 16)
+	}
+	for rep := 0; rep < r.Pick(2, 24); rep++ {
+		for _, tr := range []string{"tcp", "tls+tcp", "ipc", "vt"} {
+			for _, k := range rejectKs {
+				mode := ""
+				if tr != "vt" && rnd.Intn(3) == 0 {
+					mode = "conc"
+				}
+				cases = append(cases, mon.CaseSpec{Name: "reject", Spec: spec{Kind: "reject", Tr: tr, Sock: hx.AllProtos[rnd.Intn(len(hx.AllProtos))], K: k, N: 1 + rnd.Intn(2), Mode: mode}})
+			}
+		}
+	}
+	// websocket: every socket type (the subprotocol is the protocol's name), every other protocol's
+	// name plus K near misses of the right one
+	for rep := 0; rep < r.Pick(1, 12); rep++ {
+		for _, tr := range []string{"ws", "wss"} {
+			for _, s := range hx.AllProtos {
+				mode := ""
+				if rnd.Intn(3) == 0 {
+					mode = "conc"
+				}
+				cases = append(cases, mon.CaseSpec{Name: "reject", Spec: spec{Kind: "reject", Tr: tr, Sock: s, K: 3 + rnd.Intn(6), N: 1 + rnd.Intn(2), Mode: mode}})
+			}
+		}
+	}
 
 	r.Run(cases, func(c *mon.Case) {
 		sp := c.Spec.(spec)
@@ -153,6 +185,8 @@ func TestC16(t *testing.T) {
 			caseUnlimited(c, sp)
 		case "stall":
 			caseStall(c, sp)
+		case "reject":
+			caseReject(c, sp)
 		}
 		hx.LedgerCheck(c)
 	})
